@@ -1,5 +1,152 @@
+import PsiModel.Stim
 import Drivers.Common
-/-! Stub: replaced by the driver of the `Stim` model. -/
+/-!
+Line protocol of the `stim` model (C01, C09).
+
+  new <E>                         build a factory tree, fresh state            -> ok | err <E>
+  next <n>                        factory.next(n)                              -> ok <cells> | err <E>
+  info                            n_samples / n_samples_remaining / is_complete -> <ns> <rem> <0|1>
+  envelope <lb> <dur> <rise|n> <off> <n>     stim.envelope(...)                -> ok <cells> | err ValueError
+  sam_envelope <delay> <off> <n>             stim._sam_envelope(...)           -> ok <cells>
+  square_wave <pnum> <pden> <duty> <off> <n> stim.square_wave(...)             -> ok <cells>
+
+<E> ::= leaf <id> | sqwave <id> <cycle> <on> | fixed <id> <len> | gate <start> <dur> <E>
+      | env <id> <lb> <dur> <rise|n> <E> | sam <id> <delay> <E> | sqenv <id> <pnum> <pden> <duty> <E>
+      | filt <id> <E> | repeat <n> <skip> <period> <delay> <E>
+
+<cells> is a run-length encoding: `<count>*<cell>` separated by blanks, the j-th cell of a run
+being the first one with every index advanced by j.  `-` is the empty chunk.
+-/
 namespace Psi.Driver.Stim
-def main : IO Unit := pure ()
+open Psi.Driver Psi.Stim Psi.Chunk
+
+def showErr : Err → String
+  | .valueError => "ValueError"
+  | .zeroDivisionError => "ZeroDivisionError"
+
+def srcChar : Src → String
+  | .carrier => "C" | .ramp => "R" | .sam => "S" | .tukey => "T" | .low => "L" | .high => "H"
+
+def showCell : Cell → String
+  | .z => "Z"
+  | .o => "O"
+  | .bad => "X"
+  | .a s id i => s!"{srcChar s}{id}.{i}"
+  | .c s id => s!"{srcChar s}{id}"
+  | .mul x y => s!"M({showCell x},{showCell y})"
+  | .f id j x => s!"F{id}.{j}({showCell x})"
+
+/-- The cell one position later in a run. -/
+def succCell : Cell → Cell
+  | .a s id i => .a s id (i + 1)
+  | .mul x y => .mul (succCell x) (succCell y)
+  | .f id j x => .f id (j + 1) (succCell x)
+  | c => c
+
+/-- runs as (first cell, last cell, count), most recent first -/
+def rleStep (acc : List (Cell × Cell × Nat)) (c : Cell) : List (Cell × Cell × Nat) :=
+  match acc with
+  | (first, last, k) :: rest =>
+    if succCell last = c then (first, c, k + 1) :: rest else (c, c, 1) :: acc
+  | [] => [(c, c, 1)]
+
+def showCells (l : List Cell) : String :=
+  if l.isEmpty then "-" else
+  let runs := (l.foldl rleStep []).reverse
+  " ".intercalate (runs.map fun (first, _, k) => s!"{k}*{showCell first}")
+
+def parseRise? (s : String) : Option (Option Nat) :=
+  if s == "n" then some none else (parseNat? s).map some
+
+/-- Recursive-descent parser of `<E>` (fuel = number of tokens). -/
+def parseE : Nat → List String → Option (Except Err Stim × List String)
+  | 0, _ => none
+  | fuel + 1, ws =>
+    match ws with
+    | "leaf" :: id :: rest => do
+      pure (.ok (.leaf (← parseNat? id) 0), rest)
+    | "sqwave" :: id :: cycle :: on :: rest => do
+      pure (.ok (.sqwave (← parseNat? id) (← parseNat? cycle) (← parseNat? on) 0), rest)
+    | "fixed" :: id :: len :: rest => do
+      let id ← parseNat? id
+      let len ← parseNat? len
+      pure (.ok (.fixed ((List.range len).map (Cell.a .carrier id)) 0), rest)
+    | "gate" :: start :: dur :: rest => do
+      let start ← parseNat? start
+      let dur ← parseNat? dur
+      let (inner, rest') ← parseE fuel rest
+      pure (inner.map (Stim.gate start dur 0), rest')
+    | "env" :: id :: lb :: dur :: rise :: rest => do
+      let id ← parseNat? id
+      let lb ← parseNat? lb
+      let dur ← parseNat? dur
+      let rise ← parseRise? rise
+      let (inner, rest') ← parseE fuel rest
+      pure (inner.map (Stim.env id ⟨lb, dur, rise⟩ 0), rest')
+    | "sam" :: id :: delay :: rest => do
+      let id ← parseNat? id
+      let delay ← parseNat? delay
+      let (inner, rest') ← parseE fuel rest
+      pure (inner.map (Stim.sam id delay 0), rest')
+    | "sqenv" :: id :: pnum :: pden :: duty :: rest => do
+      let id ← parseNat? id
+      let pnum ← parseInt? pnum
+      let pden ← parseNat? pden
+      let duty ← parseNat? duty
+      let (inner, rest') ← parseE fuel rest
+      pure (inner.map (Stim.sqenv id ⟨mkRat pnum pden, duty⟩ 0), rest')
+    | "filt" :: id :: rest => do
+      let id ← parseNat? id
+      let (inner, rest') ← parseE fuel rest
+      pure (inner.map (Stim.filt id 0 0), rest')
+    | "repeat" :: n :: skip :: period :: delay :: rest => do
+      let n ← parseNat? n
+      let skip ← parseNat? skip
+      let period ← parseNat? period
+      let delay ← parseNat? delay
+      let (inner, rest') ← parseE fuel rest
+      pure (inner.bind (mkRepeat ⟨n, skip, period, delay⟩), rest')
+    | _ => none
+
+def showExt : Ext → String
+  | .na => "na" | .inf => "inf" | .fin n => toString n
+
+def step (st : Option Stim) (ws : List String) : Option Stim × String :=
+  match ws with
+  | "new" :: e =>
+    match parseE (e.length + 1) e with
+    | some (.ok g, []) => (some g, "ok")
+    | some (.error err, []) => (none, s!"err {showErr err}")
+    | _ => (st, "bad-op")
+  | ["next", n] =>
+    match st, parseNat? n with
+    | some g, some n =>
+      match g.error? with
+      | some err => (st, s!"err {showErr err}")
+      | none => let r := g.next n; (some r.2, s!"ok {showCells r.1}")
+    | _, _ => (st, "bad-op")
+  | ["info"] =>
+    match st with
+    | some g => (st, s!"{showExt g.nSamples} {showExt g.remaining} {if g.complete then 1 else 0}")
+    | none => (st, "bad-op")
+  | ["envelope", lb, dur, rise, off, n] =>
+    match parseNat? lb, parseNat? dur, parseRise? rise, parseNat? off, parseNat? n with
+    | some lb, some dur, some rise, some off, some n =>
+      match envelope (Cell.a .ramp 0) ⟨lb, dur, rise⟩ off n with
+      | .ok l => (st, s!"ok {showCells l}")
+      | .error err => (st, s!"err {showErr err}")
+    | _, _, _, _, _ => (st, "bad-op")
+  | ["sam_envelope", delay, off, n] =>
+    match parseNat? delay, parseNat? off, parseNat? n with
+    | some delay, some off, some n => (st, s!"ok {showCells (samEnvelope (samCell 0) delay off n)}")
+    | _, _, _ => (st, "bad-op")
+  | ["square_wave", pnum, pden, duty, off, n] =>
+    match parseInt? pnum, parseNat? pden, parseNat? duty, parseNat? off, parseNat? n with
+    | some pnum, some pden, some duty, some off, some n =>
+      if pnum ≤ 0 || pden == 0 then (st, "bad-op") else
+      (st, s!"ok {showCells (squareWave (Cell.a .tukey 0) (Cell.c .low 0) ⟨mkRat pnum pden, duty⟩ off n)}")
+    | _, _, _, _, _ => (st, "bad-op")
+  | _ => (st, "bad-op")
+
+def main : IO Unit := run none step
 end Psi.Driver.Stim
